@@ -16,6 +16,7 @@ import (
 func init() {
 	register("C01_AllRoutes", C01_AllRoutes)
 	register("C01_RememberMiddleware", C01_RememberMiddleware)
+	register("C01_OTPUnconsumed", C01_OTPUnconsumed)
 }
 
 func fullOpts() flowOpts {
@@ -178,3 +179,7 @@ func C01_RememberMiddleware() {
 		verif.Assert(!preHas, "nothing happens when somebody is already logged in")
 	}
 }
+
+// C01_OTPUnconsumed: "an unconsumed one-time password" — a one-time password that already
+// logged somebody in does not do so again (the exploration of C12_OTPLogin).
+func C01_OTPUnconsumed() { C12_OTPLogin() }
